@@ -459,17 +459,20 @@ func (a *Act) intrinsic(name string, fv FuncV, args []Value) (Value, bool) {
 		return nvl, true
 	case "sync/atomic.CompareAndSwapInt32", "sync/atomic.CompareAndSwapUint32":
 		// Between the value the caller read earlier and this operation another goroutine may have
-		// updated the cell atomically (interference: +1 or -1, the updates the code makes to its
-		// counters): then the comparison fails.  The ghost sum of interference per cell is what the
-		// harness adds to its expectation (verifCasDelta), so that a correct retry loop passes and a
+		// updated the cell atomically (interference: +1, e.g. another call started on the channel;
+		// always possible below the stated bound of 2^30 on counters): then the comparison fails.
+		// Only the first compare-and-swap operation of a run is interfered with, so that a
+		// retry loop ends within the unwinding bound.  The ghost sum of interference per cell is
+		// what the harness adds to its expectation (verifCasDelta): a correct retry loop passes, a
 		// lost update shows.  Natively verifCAS32 applies the same interference before the real CAS.
 		p := args[0].(PtrV)
 		a.atomicOp = true
 		cur := a.load(p).(*Term)
-		if !in.isHarnessFn(a.fn) && len(p.alts) == 1 {
+		if !in.isHarnessFn(a.fn) && len(p.alts) == 1 && in.casOps < 1 {
+			in.casOps++
 			interf := in.named("casInterfered@", BoolSort)
-			up := in.named("casUp@", BoolSort)
-			d := Ite(interf, Ite(up, BV(32, 1), BV(32, 0xffffffff)), BV(32, 0))
+			in.assume(Or(Not(And(a.g, interf)), BvCmp("bvult", cur, BV(32, 1<<30-4))))
+			d := Ite(interf, BV(32, 1), BV(32, 0))
 			cur = BvBin("bvadd", cur, d)
 			k := fmt.Sprintf("%d:%v", p.alts[0].obj, p.alts[0].path)
 			if in.casDelta == nil {
@@ -485,14 +488,6 @@ func (a *Act) intrinsic(name string, fv FuncV, args []Value) (Value, bool) {
 		a.store(p, Ite(okc, args[2].(*Term), cur))
 		a.atomicOp = false
 		return okc, true
-	case "verifCasDelta":
-		p := args[0].(PtrV)
-		if len(p.alts) == 1 {
-			if d, ok := in.casDelta[fmt.Sprintf("%d:%v", p.alts[0].obj, p.alts[0].path)]; ok {
-				return d, true
-			}
-		}
-		return BV(32, 0), true
 	case "sync/atomic.LoadInt32", "sync/atomic.LoadUint32":
 		a.atomicOp = true
 		r := a.load(args[0].(PtrV))
@@ -823,6 +818,14 @@ func (a *Act) intrinsic(name string, fv FuncV, args []Value) (Value, bool) {
 		return c, true
 	case "verifSegmentsOK":
 		return True, true
+	case "verifCasDelta":
+		p := args[0].(PtrV)
+		if len(p.alts) == 1 {
+			if d, ok := in.casDelta[fmt.Sprintf("%d:%v", p.alts[0].obj, p.alts[0].path)]; ok {
+				return d, true
+			}
+		}
+		return BV(32, 0), true
 	case "verifCrcOf":
 		if c := in.crcLookup(args[0].(SliceV)); c != nil {
 			return c.val, true
